@@ -23,7 +23,12 @@ def gen_case(rng, params):
         lit = bytes(regen._swapcase(c) if rng.random() < 0.5 else c for c in lit)
         n_cmds = max(n_cmds, 2)
     data = g.gen_stream(rng, lit, n_cmds)
-    pieces = g.cut(rng, data)
+    if chunk == params["readChunkSize"] and rng.random() < 0.08:
+        # a read that is filled to the last byte and ends exactly with the prompt (or a byte before / after)
+        marks = [m.end() for m in __import__("re").finditer(__import__("re").escape(lit), data)] if lit else []
+        data, pieces = g.page_cut(rng, data, chunk, marks)
+    else:
+        pieces = g.cut(rng, data)
     ticks = g.schedule(rng, pieces)
     ops = []
     per_call = rng.random() < 0.4
